@@ -2,6 +2,7 @@ package scen
 
 import (
 	"context"
+	"io"
 	"net/rpc"
 	"time"
 
@@ -56,6 +57,22 @@ func (s *slowTestServer) Double(ctx context.Context, r *grpctest.TestRequest) (*
 		}
 	}
 	return &grpctest.TestResponse{Output: r.Input * 2}, nil
+}
+
+// Stream echoes doubled inputs until the client closes its side.
+func (s *slowTestServer) Stream(st grpctest.Test_StreamServer) error {
+	for {
+		r, err := st.Recv()
+		if err != nil {
+			if err == io.EOF {
+				return nil
+			}
+			return err
+		}
+		if err := st.Send(&grpctest.TestResponse{Output: r.Input * 2}); err != nil {
+			return err
+		}
+	}
 }
 
 type fullGRPCPlugin struct {
